@@ -28,6 +28,7 @@ func init() {
 			{ID: "C07-R3", Title: "reset for new code covers the run state", Floor: 5, Run: c07r3},
 			{ID: "C07-R4", Title: "frames pushed above the current one are restored by defer (shared with C04-R4)", Floor: 3, Run: c04r4},
 			{ID: "C07-R6", Title: "run-scoped channels are closed once and cleared", Floor: 1, Run: func(c *core.Ctx) { closeOnce(c, "vm") }},
+			{ID: "C07-R7", Title: "run-state reset on entry only, guarded only by request and first-run", Floor: 2, Run: resetDiscipline},
 			{ID: "C07-R5", Title: "VM-level caches are filled only after the fallible work succeeded", Floor: 1, Run: c07r5},
 		},
 	})
@@ -413,4 +414,206 @@ func spilledResult(bb *ssa.BasicBlock, v ssa.Value) ssa.Value {
 		return last
 	}
 	return v
+}
+
+// vmResetFunc: the parameterless VirtualMachine method that assigns sp, ip and fp.
+func vmResetFunc(p *core.Program) *types.Func {
+	r := resolveVMRoles(p)
+	sp, ip, fp := fieldByName(r.vmT, "sp"), fieldByName(r.vmT, "ip"), fieldByName(r.vmT, "fp")
+	var reset *types.Func
+	for _, m := range core.Methods(r.vmT) {
+		fd := p.Decl(m)
+		if fd == nil || fd.Body == nil || m.Type().(*types.Signature).Params().Len() != 0 {
+			continue
+		}
+		w := fieldsWritten(r.info, fd.Body, r.vmT)
+		if w[sp] && w[ip] && w[fp] && m != r.arm {
+			reset = m
+		}
+	}
+	if reset == nil {
+		core.Undecidedf("reset function (parameterless VirtualMachine method assigning sp, ip and fp) not found")
+	}
+	return reset
+}
+
+// resetDiscipline (C04-R5, C18-R4, C07-R7): the run-state reset happens on the
+// way into a run and nowhere else, and whether it happens depends only on what
+// the caller asked for and on this being the first run — never on what the VM
+// happens to have cached.
+//   - skipping it when the code object is already loaded leaves the previous
+//     result on the operand stack (one slot per evaluation until it overflows);
+//   - running it on the way out (in the recover branch) wipes the loaded code and
+//     module caches, so the next piece of an incremental session loses its globals.
+func resetDiscipline(c *core.Ctx) {
+	p := c.P
+	r := resolveVMRoles(p)
+	reset := vmResetFunc(p)
+	resetSSA := p.SSAFunc(reset)
+	dispatch := p.SSAFunc(dispatchFunc(p))
+	startCount := fieldByName(r.vmT, "startCount")
+	n := 0
+	var all []*ssa.Function
+	var collect func(fn *ssa.Function)
+	collect = func(fn *ssa.Function) {
+		all = append(all, fn)
+		for _, a := range fn.AnonFuncs {
+			collect(a)
+		}
+	}
+	for _, m := range core.Methods(r.vmT) {
+		if sf := p.SSAFunc(m); sf != nil && sf.Blocks != nil {
+			collect(sf)
+		}
+	}
+	var allowed func(v ssa.Value, seen map[ssa.Value]bool) string
+	allowed = func(v ssa.Value, seen map[ssa.Value]bool) string {
+		if seen[v] {
+			return ""
+		}
+		seen[v] = true
+		switch x := v.(type) {
+		case *ssa.Const, *ssa.Parameter:
+			return ""
+		case *ssa.BinOp:
+			if s := allowed(x.X, seen); s != "" {
+				return s
+			}
+			return allowed(x.Y, seen)
+		case *ssa.UnOp:
+			if x.Op == token.MUL {
+				if fa, ok := x.X.(*ssa.FieldAddr); ok && startCount != nil && fieldVar(fa) == startCount {
+					return ""
+				}
+				return "reads " + x.X.String()
+			}
+			return allowed(x.X, seen)
+		case *ssa.Phi:
+			for _, e := range x.Edges {
+				if s := allowed(e, seen); s != "" {
+					return s
+				}
+			}
+			// the conditions that select the phi's edges
+			for _, pred := range x.Block().Preds {
+				if len(pred.Instrs) > 0 {
+					if iff, ok := pred.Instrs[len(pred.Instrs)-1].(*ssa.If); ok {
+						if s := allowed(iff.Cond, seen); s != "" {
+							return s
+						}
+					}
+				}
+			}
+			return ""
+		case *ssa.Convert:
+			return allowed(x.X, seen)
+		}
+		return "depends on " + v.String()
+	}
+	for _, fn := range all {
+		for _, b := range fn.Blocks {
+			for _, in := range b.Instrs {
+				ci, ok := in.(ssa.CallInstruction)
+				if !ok || ci.Common().StaticCallee() != resetSSA {
+					continue
+				}
+				n++
+				key := core.SSAName(fn) + "|reset"
+				// (a) on the way in: not in a deferred/anonymous function, and not reachable from the dispatch call
+				bad := ""
+				if fn.Parent() != nil {
+					bad = "the reset is called from an anonymous (deferred) function: it runs on the way out of a run"
+				}
+				for _, b2 := range fn.Blocks {
+					for _, in2 := range b2.Instrs {
+						if c2, ok := in2.(ssa.CallInstruction); ok && c2.Common().StaticCallee() == dispatch {
+							seen := map[*ssa.BasicBlock]bool{}
+							var reach func(x *ssa.BasicBlock) bool
+							reach = func(x *ssa.BasicBlock) bool {
+								if x == b {
+									return true
+								}
+								if seen[x] {
+									return false
+								}
+								seen[x] = true
+								for _, s := range x.Succs {
+									if reach(s) {
+										return true
+									}
+								}
+								return false
+							}
+							for _, s := range b2.Succs {
+								if reach(s) {
+									bad = "the reset is reachable after the dispatch call"
+								}
+							}
+						}
+					}
+				}
+				c.Check(bad == "", key+"|on-entry-only", p.Pos(in.Pos()), "the run-state reset happens only on the way into a run"+ifs(bad != "", ": "+bad))
+				// (b) controlling conditions
+				why := ""
+				for d := b.Idom(); d != nil; d = d.Idom() {
+					if len(d.Instrs) == 0 {
+						continue
+					}
+					iff, ok := d.Instrs[len(d.Instrs)-1].(*ssa.If)
+					if !ok {
+						continue
+					}
+					// d controls b when exactly one successor dominates b
+					k := 0
+					for _, s := range d.Succs {
+						if s == b || s.Dominates(b) {
+							k++
+						}
+					}
+					if k != 1 {
+						continue
+					}
+					// only guards under which the run goes on without the reset matter
+					goesOn := false
+					for _, s := range d.Succs {
+						if s == b || s.Dominates(b) {
+							continue
+						}
+						seen := map[*ssa.BasicBlock]bool{}
+						var reach func(x *ssa.BasicBlock) bool
+						reach = func(x *ssa.BasicBlock) bool {
+							if seen[x] {
+								return false
+							}
+							seen[x] = true
+							for _, in2 := range x.Instrs {
+								if c2, ok := in2.(ssa.CallInstruction); ok && c2.Common().StaticCallee() == dispatch {
+									return true
+								}
+							}
+							for _, s2 := range x.Succs {
+								if reach(s2) {
+									return true
+								}
+							}
+							return false
+						}
+						if reach(s) {
+							goesOn = true
+						}
+					}
+					if !goesOn {
+						continue
+					}
+					if s := allowed(iff.Cond, map[ssa.Value]bool{}); s != "" {
+						why = s + " (" + p.Pos(iff.Pos()) + ")"
+					}
+				}
+				c.Check(why == "", key+"|guard", p.Pos(in.Pos()), "whether the run-state reset happens depends only on the caller's request and on this being the first run"+ifs(why != "", "; the guard "+why))
+			}
+		}
+	}
+	if n == 0 {
+		core.Undecidedf("no call of the reset function %s found", reset.Name())
+	}
 }
